@@ -31,7 +31,7 @@ fn base_case(prop: &str, seed: u64) -> (Case, Rng) {
     draw_sim_part(&mut rng, &mut case);
     // the HTTP arm: a share of the runs of the properties that are stated for both transports
     let mut arm = Rng::substream(seed, "http-arm");
-    case.http_arm = matches!(prop, "C05" | "C06" | "C13" | "C15" | "C16" | "C10") && arm.chance(0.3);
+    case.http_arm = matches!(prop, "C05" | "C06" | "C09" | "C13" | "C15" | "C16" | "C10") && arm.chance(0.3);
     (case, rng)
 }
 
@@ -306,6 +306,9 @@ pub fn make_case(prop: &str, seed: u64) -> Case {
             } else {
                 Mix { users: 70, catalogue: 4, send: 2, poll: 2, get_topic: 3, jump: 8, job_clean_tokens: 4, tick: 3, audit: 2, restart_clean: 6, restart_flush_kill: 1, connect: 3, ..Default::default() }
             };
+            if prop == "C10" {
+                mix.unauth = 3;
+            }
             if prop == "C09" {
                 mix.unauth = 6;
                 case.gen.revocation_chance = *rng.pick(&[0.0, 0.5, 0.8]);
